@@ -87,8 +87,15 @@ func InstantNow() *dtpb.Instant {
 //
 // See: http://hl7.org/fhir/R4/datatypes.html#time
 func Time(t time.Time) *dtpb.Time {
+	day := (time.Hour * 24).Microseconds()
+	// Go's % keeps the sign of the dividend: instants before the unix epoch need
+	// the remainder moved back into [0, day).
+	valueUs := t.UnixMicro() % day
+	if valueUs < 0 {
+		valueUs += day
+	}
 	return &dtpb.Time{
-		ValueUs:   t.UnixMicro() % (time.Hour * 24).Microseconds(),
+		ValueUs:   valueUs,
 		Precision: dtpb.Time_MICROSECOND,
 	}
 }
